@@ -2,7 +2,7 @@
 From Coq Require Import List ZArith QArith Qround Bool.
 From PV Require Import lib.Sx lib.Str lib.Result.
 From PV Require Import model.Base spec.SpecBase model.TimeWrite spec.SpecTimeW extract.OrCommon.
-From PV Require model.Langs spec.SpecTimeSamiDoc model.DfxpWriteDoc.
+From PV Require model.Langs spec.SpecTimeSamiDoc model.DfxpWriteDoc model.SamiWriteDoc model.SamiText model.DfxpWriteDocLangs.
 Import ListNotations.
 Open Scope Z_scope.
 
@@ -151,6 +151,33 @@ Definition req_dfxp_doc_text (arg : sx) : sx :=
   | _ => bad
   end.
 
+(* 208 (round 4): [language, captions (start, end, text lines)] -> [the text of the SAMI document the string-level writer
+   model prints (model/SamiWriteDoc.v), its part from <body> on, the string-level reader model on that part] *)
+Definition of_lang_times (d : list (str * list (Z * Z))) : sx :=
+  of_list (fun kv : str * list (Z * Z) => SL [SS (fst kv); of_list (fun p : Z * Z => SL [SI (fst p); SI (snd p)]) (snd kv)]) d.
+Definition req_sami_doc_text (arg : sx) : sx :=
+  match arg with
+  | SL [SS lang; cs] =>
+      match sx_listof sx_wcap cs with
+      | Some cs =>
+          let body := model.SamiWriteDoc.sami_body_text lang cs in
+          SL [SS (model.SamiWriteDoc.sami_write_doc lang cs); SS body;
+              of_result of_lang_times (model.SamiText.sami_read_string [] [(lower lang, lang)] body)]
+      | None => bad
+      end
+  | _ => bad
+  end.
+
+(* 209 (round 4): [[language, captions] ...] -> the text of the DFXP document with one <div> per language *)
+Definition req_dfxp_doc_langs (arg : sx) : sx :=
+  match sx_listof (fun x => match x with
+                            | SL [SS lang; cs] => match sx_listof sx_wcap cs with Some cs => Some (lang, cs) | None => None end
+                            | _ => None
+                            end) arg with
+  | Some langs => SS (model.DfxpWriteDocLangs.dfxp_write_doc_langs langs)
+  | None => bad
+  end.
+
 Definition dispatch (code : Z) (arg : sx) : option sx :=
   match code with
   | 200 => Some (req_model arg)
@@ -161,5 +188,7 @@ Definition dispatch (code : Z) (arg : sx) : option sx :=
   | 205 => Some (req_groups arg)
   | 206 => Some (req_sami_doc arg)
   | 207 => Some (req_dfxp_doc_text arg)
+  | 208 => Some (req_sami_doc_text arg)
+  | 209 => Some (req_dfxp_doc_langs arg)
   | _ => None
   end.
